@@ -18,7 +18,18 @@ idn-email: no '@' => reject), `re.compile` for regex; for every pair:
 conforms() returns a bool, agrees with check(), and nothing but FormatError
 comes out of check().
 
-Two more spaces, both about "for every string whatsoever":
+Three more spaces, all about "for every string whatsoever" / "the draft-specific
+checker objects":
+
+  construct   the grammar does not depend on how the checker object was built:
+              FormatChecker(), FormatChecker(formats=None) and
+              FormatChecker(formats=X) for X a list, tuple, set, frozenset, dict,
+              dict.keys(), a list with duplicates, a list of str-subclass names, a
+              generator, iter(list), map, filter, reversed, a one-shot iterable
+              class, and a FormatChecker subclass -- each for the full set of
+              registered names and for every single name; every (object, name) sees
+              the seeds of its family and their single-character deletions, judged
+              by the same oracles
 
   strsub      every seed as an instance of a str subclass (still a string: same
               oracle, same demands)
@@ -505,6 +516,126 @@ def run_strsub(fam):
 
 
 # ----------------------------------------------------------------------------
+# how the checker object was constructed
+# ----------------------------------------------------------------------------
+
+ALL_NAMES = sorted(FormatChecker.checkers)
+
+
+class OneShot(object):
+    """An iterable (not a sequence, not a generator) that can be walked once."""
+
+    def __init__(self, names):
+        self._it = iter(list(names))
+
+    def __iter__(self):
+        return self._it
+
+
+class SubChecker(FormatChecker):
+    pass
+
+
+CONSTRUCT = {
+    "no-argument": lambda names: FormatChecker() if names is ALL_NAMES else None,
+    "None": lambda names: FormatChecker(formats=None) if names is ALL_NAMES else None,
+    "list": lambda names: FormatChecker(formats=list(names)),
+    "tuple": lambda names: FormatChecker(formats=tuple(names)),
+    "set": lambda names: FormatChecker(formats=set(names)),
+    "frozenset": lambda names: FormatChecker(formats=frozenset(names)),
+    "dict": lambda names: FormatChecker(formats=dict.fromkeys(names, 0)),
+    "dict-keys": lambda names: FormatChecker(formats=dict.fromkeys(names, 0).keys()),
+    "list-with-duplicates": lambda names: FormatChecker(formats=list(names) + list(names)),
+    "list-of-str-subclass": lambda names: FormatChecker(formats=[StrSub(n) for n in names]),
+    "generator": lambda names: FormatChecker(formats=(n for n in names)),
+    "iter-of-list": lambda names: FormatChecker(formats=iter(list(names))),
+    "map": lambda names: FormatChecker(formats=map(str, names)),
+    "filter": lambda names: FormatChecker(formats=filter(None, names)),
+    "reversed": lambda names: FormatChecker(formats=reversed(list(names))),
+    "one-shot-iterable-object": lambda names: FormatChecker(formats=OneShot(names)),
+    "subclass-no-argument": lambda names: SubChecker() if names is ALL_NAMES else None,
+    "subclass-list": lambda names: SubChecker(formats=list(names)),
+    "keyword-by-position": lambda names: FormatChecker(list(names)),
+}
+HOWS = sorted(CONSTRUCT)
+
+
+def construct_strings(fam):
+    out, seen = [], set()
+    for seed in seeds_of(fam):
+        cands = [seed]
+        if len(seed) <= 40:
+            cands += [seed[:i] + seed[i + 1:] for i in range(len(seed))]
+        for c in cands:
+            if c not in seen:
+                seen.add(c)
+                out.append(c)
+    return out
+
+
+def constructed_target(how, which, name):
+    """which: "full" or a single name"""
+    chk = CONSTRUCT[how](ALL_NAMES if which == "full" else [which])
+    if chk is None:
+        return None
+    t = Target()
+    t.label, t.chk, t.name = "FormatChecker built from %s of %s" % (how, which), chk, name
+    t.fam = family_of(name)
+    t.oracle = ORACLE.get(t.fam)
+    t.rep = False
+    return t
+
+
+def reference_target(name):
+    return next(t for t in TARGETS if t.label == "FormatChecker()" and t.name == name)
+
+
+def judge_constructed(t, s):
+    """Like judge(); for the oracle-less families the reference is the stock FormatChecker() object."""
+    oc, kind = judge(t, s)
+    ref_oc, ref_kind = judge(reference_target(t.name), s)
+    if kind is None and oc != ref_oc:
+        kind = "differs-from-FormatChecker()"
+    return oc, kind, ref_kind
+
+
+def run_construct(how):
+    ev = nt = nviol = 0
+    outcomes, viol, seen = {}, [], {}
+    for which in ["full"] + ALL_NAMES:
+        names = ALL_NAMES if which == "full" else [which]
+        for name in names:
+            t = constructed_target(how, which, name)       # a fresh object per (set of names, name)
+            if t is None:
+                continue
+            for s in construct_strings(space_family(t.fam)):
+                ev += 1
+                nt += 1
+                oc, kind, ref_kind = judge_constructed(t, s)
+                key = "%s:constructed:%s" % (t.fam, oc)
+                outcomes[key] = outcomes.get(key, 0) + 1
+                if kind is None:
+                    continue
+                nviol += 1
+                if kind == ref_kind:        # the stock object fails in the same way: nothing particular to the construction
+                    sig = signature(t, s, kind)
+                else:
+                    sig = "C13|constructed-checker|%s|formats-as-%s" % (kind, how)
+                n = seen.get(sig, 0)
+                seen[sig] = n + 1
+                if n < 2:
+                    c, b = observe(t, s)
+                    viol.append({"signature": sig, "size": len(s) + (0 if which != "full" else 100),
+                                 "case": {"constructed": how, "names": which, "format": name, "string": s, "kind": kind},
+                                 "detail": {"check": c, "conforms": b if isinstance(b, (bool, str)) else repr(b),
+                                            "oracle": None if t.oracle is None else t.oracle(s),
+                                            "names_the_object_knows": sorted(t.chk.checkers),
+                                            "names_it_was_given": list(names)}})
+    return {"evaluations": ev, "nontrivial": nt, "violations": viol, "samples": [], "outcomes": outcomes,
+            "counters": {"constructed_checker_observations": ev, "violating_observations": nviol}}
+
+
+# ----------------------------------------------------------------------------
 # several checker objects, interleaved (executed in the nursery)
 # ----------------------------------------------------------------------------
 
@@ -636,6 +767,10 @@ def plan(ctx):
             for b in range(E2_BUCKETS):
                 units.append((fam, "edit2", b))
         units.append((fam, "strsub", 0))
+    for how in HOWS:
+        units.append(("construct", how))
+    bounds["construct"] = {"constructions": HOWS, "name_sets": ["full"] + ALL_NAMES,
+                           "strings_per_family": {f: len(construct_strings(f)) for f in fams}}
     il = [(0, 3), (2, 4)] if ctx.thorough else [(2, 3)]
     for name in IL_NAMES:
         for nstock, depth in il:
@@ -660,7 +795,8 @@ def plan(ctx):
                  "every other distinct registered (function, raises) entry (marked * in bounds.targets); evaluations "
                  "counts these observations.  Non-trivial = the string is in the family's language (oracle; "
                  "implementation verdict for the oracle-less families) or is a seed/edit of a seed, i.e. a member or "
-                 "a near miss.  strsub: every seed once more as a str-subclass instance.  interleave: per "
+                 "a near miss.  construct: case = (construction, set of names, name, string of the "
+                 "reduced space); every object is built freshly for its (construction, set, name).  strsub: every seed once more as a str-subclass instance.  interleave: per "
                  "registered name every operation sequence of the stated depth over (checker object, conforming / "
                  "non-conforming string), each leaf in its own forked child of a fresh interpreter, every step "
                  "judged; evaluations counts every distinct prefix once"),
@@ -686,6 +822,8 @@ def strings_of(unit, tier):
 def run_unit(unit, ctx):
     if unit[0] == "interleave":
         return run_interleave_unit(unit)
+    if unit[0] == "construct":
+        return run_construct(unit[1])
     if unit[1] == "strsub":
         return run_strsub(unit[0])
     prepare(ctx.tier)
@@ -697,6 +835,13 @@ def replay(case, ctx):
         steps = run_interleaved(case["interleave"], case["stock_objects"], case["ops"])
         return {"reproduced": steps[-1][2] is not None, "steps": [[x[0], x[1]] for x in steps],
                 "problem": None if steps[-1][2] is None else steps[-1][2][0]}
+    if "constructed" in case:
+        t = constructed_target(case["constructed"], case["names"], case["format"])
+        if t is None:
+            return {"reproduced": False, "detail": "no such construction"}
+        oc, kind, ref_kind = judge_constructed(t, case["string"])
+        return {"reproduced": kind == case["kind"], "outcome": oc, "problem": kind,
+                "names_the_object_knows": sorted(t.chk.checkers)}
     if case.get("as") == "str-subclass":
         for t in TARGETS:
             if t.label == case["checker"] and t.name == case["format"]:
